@@ -17,21 +17,25 @@ structure Fam where
   init : σ
   step : σ → List String → σ × String
 
-partial def loop (h : IO.FS.Stream) (out : IO.FS.Stream) (f : Fam) (s : f.σ) : IO Unit := do
+partial def loopF (flush : Bool) (h : IO.FS.Stream) (out : IO.FS.Stream) (f : Fam) (s : f.σ) : IO Unit := do
   let line ← h.getLine
   if line.isEmpty then return ()
   let toks := tokens line
-  match toks with
-  | [] => out.putStrLn "#"; loop h out f s
-  | t :: _ =>
-    if t.startsWith "#" then
-      out.putStrLn "#"; loop h out f s
-    else if toks == ["reset"] then
-      out.putStrLn "ok"; loop h out f f.init
-    else
-      let (s', o) := f.step s toks
-      out.putStrLn o
-      loop h out f s'
+  let (s', o) : f.σ × String := match toks with
+    | [] => (s, "#")
+    | t :: _ =>
+      if t.startsWith "#" then (s, "#")
+      else if toks == ["reset"] then (f.init, "ok")
+      else f.step s toks
+  out.putStrLn o
+  if flush then out.flush
+  loopF flush h out f s'
+
+/-- VERIF_FLUSH=1 answers line by line (interactive use: the script generator of the cluster
+family consults the model while it writes a script) -/
+def loop (h : IO.FS.Stream) (out : IO.FS.Stream) (f : Fam) (s : f.σ) : IO Unit := do
+  let fl ← IO.getEnv "VERIF_FLUSH"
+  loopF fl.isSome h out f s
 
 def natList (l : List Nat) : String := "[" ++ ",".intercalate (l.map toString) ++ "]"
 
